@@ -30,14 +30,15 @@ type failure struct {
 }
 
 type harness struct {
-	r       *hlib.Run
-	std     *hlib.StdBuild
-	genC    string // <scratch>/repo/gen/c
-	ccDir   string
-	pool    *pool
-	nextID  int
-	fails   []failure // in case order
-	seenKey map[string]int
+	r        *hlib.Run
+	std      *hlib.StdBuild
+	genC     string // <scratch>/repo/gen/c
+	ccDir    string
+	pool     *pool
+	nextID   int
+	fails    []failure // in case order
+	seenKey  map[string]int
+	cpuByFam map[string]int64
 
 	ccMu     sync.Mutex
 	ccSeen   map[[32]byte]bool
@@ -80,6 +81,12 @@ func (h *harness) compile(n int, csrc []byte) (key, out string) {
 		return "gcc:cannot-write", err.Error()
 	}
 	defer os.Remove(path)
+	t0 := time.Now()
+	defer func() {
+		if d := time.Since(t0); debugSlow && d > 2*time.Second {
+			fmt.Fprintf(os.Stderr, "slow gcc case %d: %v (%d bytes of C)\n", n, d, len(csrc))
+		}
+	}()
 	o, e, err := hlib.RunCmd(5*time.Minute, h.ccDir, nil, nil, "gcc", "-fsyntax-only", "-x", "c", "-DWUFFS_IMPLEMENTATION", "-I", h.genC, path)
 	if err == nil {
 		return "", ""
@@ -170,10 +177,16 @@ func verdict(c *Case, res *Result, cr *Crash) (key, desc string) {
 			return "panic:" + st.Site + ":" + st.Class, fmt.Sprintf("stage %s panicked at %s: %s", st.Name, st.Site, st.Msg)
 		}
 	}
-	limit := int64(10000) * int64(1+caseSize(c)/65536)
+	// "promptly": at most 10 s of CPU per 64 KiB of input (for the formatter:
+	// of input plus output, its output being legitimately larger than its input).
 	for _, st := range res.Stages {
+		n := int64(caseSize(c))
+		if st.Name == "fmt.render" {
+			n += res.RenderBytes
+		}
+		limit := int64(10000) * (1 + n/65536)
 		if st.CPUms > limit {
-			return "slow:" + st.Name, fmt.Sprintf("stage %s used %d ms of CPU for %d bytes of input (limit %d ms)", st.Name, st.CPUms, caseSize(c), limit)
+			return "slow:" + st.Name, fmt.Sprintf("stage %s used %d ms of CPU for %d bytes of input/output (limit %d ms)", st.Name, st.CPUms, n, limit)
 		}
 	}
 	return "", ""
@@ -192,6 +205,15 @@ func furthest(res *Result) string {
 
 // runBatch pushes cases through the children and processes outcomes in case order.
 func (h *harness) runBatch(cases []*Case) {
+	if onlyFam != "" {
+		kept := cases[:0:0]
+		for _, c := range cases {
+			if strings.HasPrefix(c.Gen, onlyFam) {
+				kept = append(kept, c)
+			}
+		}
+		cases = kept
+	}
 	for _, c := range cases {
 		c.ID = h.nextID
 		h.nextID++
@@ -238,11 +260,28 @@ func (h *harness) runBatch(cases []*Case) {
 				r.Op("parse 1 "+hexsrc, par)
 			}
 		}
+		if o.res != nil {
+			tot := int64(0)
+			for _, st := range o.res.Stages {
+				tot += st.CPUms
+				h.cpuByFam[fam+"/"+st.Name] += st.CPUms
+			}
+			if debugSlow && tot > 1500 {
+				fmt.Fprintf(os.Stderr, "slow case %d %s size=%d:", c.ID, c.Gen, caseSize(c))
+				for _, st := range o.res.Stages {
+					fmt.Fprintf(os.Stderr, " %s=%dms", st.Name, st.CPUms)
+				}
+				fmt.Fprintln(os.Stderr)
+			}
+		}
 		if key, desc := verdict(c, o.res, o.cr); key != "" {
 			h.fails = append(h.fails, failure{key, desc, c})
 		}
 	}
 }
+
+var debugSlow = os.Getenv("C11_DEBUG") != ""
+var onlyFam = os.Getenv("C11_ONLY") // debugging aid: run only generator families with this prefix
 
 // tieParse: emit `parse` op lines (the Lean parser model covers whole files).
 const tieParse = false
@@ -265,7 +304,7 @@ func main() {
 		os.Exit(2)
 	}
 	defer std.Cleanup()
-	h := &harness{r: r, std: std, genC: filepath.Join(std.Scratch, "gen", "c"), seenKey: map[string]int{}, ccSeen: map[[32]byte]bool{}}
+	h := &harness{r: r, std: std, genC: filepath.Join(std.Scratch, "gen", "c"), seenKey: map[string]int{}, cpuByFam: map[string]int64{}, ccSeen: map[[32]byte]bool{}}
 	h.ccDir = filepath.Join(filepath.Dir(std.Scratch), "cc")
 	os.MkdirAll(h.ccDir, 0o755)
 	nw := runtime.NumCPU() / 2
@@ -391,6 +430,7 @@ func main() {
 		r.Fail(f.key, f.desc, replayText(c, note))
 	}
 
+	r.Extra("cpu_ms_by_family_and_stage", h.cpuByFam)
 	r.Extra("oracle_cases", h.nextID)
 	r.Extra("gcc_runs", h.ccRuns)
 	r.Extra("gcc_skipped_identical_c", h.ccCached)
